@@ -134,6 +134,7 @@ FORMS = {
     'stiff2':   (2, 2, ('shipped', 'StiffnessAssembler2D'), None, False, {}, _t_stiff, False, 1),
     'stiff3':   (3, 2, ('shipped', 'StiffnessAssembler3D'), None, False, {}, _t_stiff, False, 1),
     'divdiv2':  (2, 2, ('shipped', 'DivDivAssembler2D'), None, False, {}, _t_divdiv, False, 1),
+    'divdiv3':  (3, 2, ('shipped', 'DivDivAssembler3D'), None, False, {'_small3': True}, _t_divdiv, False, 1),
     'heat2':    (2, 2, ('shipped', 'HeatAssembler_ST2D'), None, False, {'_cyl': True}, _t_heat, False, 1),
     'l2f2':     (2, 1, ('shipped', 'L2FunctionalAssembler2D'), None, False, {'f': 'fieldp'}, _t_l2f, False, 0),
     'l2fp2':    (2, 1, ('shipped', 'L2FunctionalAssemblerPhys2D'), None, False, {'f': 'phys'}, _t_l2f, True, 0),
@@ -145,7 +146,7 @@ QUICK_FORMS = list(FORMS)
 # generators (worker side)
 # ---------------------------------------------------------------------------------------------
 
-def rand_kv(rng, pmin, pmax, maxspans, breaks=None, p=None, minspans=1):
+def rand_kv(rng, pmin, pmax, maxspans, breaks=None, p=None, minspans=1, simple=False):
     from pyiga import bspline
     p = int(rng.integers(pmin, pmax + 1)) if p is None else int(p)
     if breaks is None:
@@ -154,7 +155,7 @@ def rand_kv(rng, pmin, pmax, maxspans, breaks=None, p=None, minspans=1):
         cuts = sorted(set(int(c) for c in rng.integers(1, 16, size=n - 1)))
         breaks = np.array([0.0] + [c / 16.0 for c in cuts] + [1.0])
     inner = breaks[1:-1]
-    mult = [int(rng.integers(1, p + 1)) if p >= 1 else 1 for _ in inner]
+    mult = [int(rng.integers(1, p + 1)) if (p >= 1 and not simple) else 1 for _ in inner]
     kv = np.concatenate(([breaks[0]] * (p + 1), np.repeat(inner, mult), [breaks[-1]] * (p + 1)))
     return bspline.KnotVector(kv, p), breaks
 
@@ -305,8 +306,11 @@ def make_case(name, seed, tier):
     elif degrel == 'mix':     # axis 0: test > trial, axis 1: trial > test; overall maximum attained only by the test space
         a, b = int(rng.integers(1, 3)), int(rng.integers(2, 4))
         p0s = [a, b]; p1s = [max(a, b) + 1, b - 1]
+    small3 = bool(inputs.get('_small3'))      # 2x2x2 spans, degrees 1-2, simple interior knots (<= 4 dofs per axis)
+    if small3:
+        p0s = [int(rng.integers(1, 3)) for _ in range(dim)]
     for k in range(dim):
-        kv, br = rand_kv(rng, pmin, pmax, maxspans, p=p0s[k], minspans=2 if degrel else 1)
+        kv, br = rand_kv(rng, pmin, pmax, 2 if small3 else maxspans, p=p0s[k], minspans=2 if (degrel or small3) else 1, simple=small3)
         kvs0.append(kv); brks.append(br)
     kvs0 = tuple(kvs0)
     if two_space:
@@ -443,8 +447,8 @@ def worker(name, seed, tier):
     # the property: max-degree+1 Gauss nodes per knot span, the maximum taken over ALL knot vectors the form is applied to
     nqp_want = max(kv.p for kv in tuple(case['kvs0']) + tuple(case['kvs1'])) + 1
     assert nqp == nqp_want
-    out['counts']['nqp diffs'] = 1
-    if nqp_used != nqp_want:
+    out['counts']['nqp diffs' if nqp_used is not None else 'nqp not observable (quadrature bound before the recorder)'] = 1
+    if nqp_used is not None and nqp_used != nqp_want:
         out['violations'].append(('nqp:' + name, 'assembler integrates with %s Gauss nodes per span; the property demands max degree + 1 = %d (trial degrees %s, test degrees %s)'
                                   % (nqp_used, nqp_want, [kv.p for kv in case['kvs0']], [kv.p for kv in case['kvs1']]), desc, True))
     terms = termf(o)
